@@ -543,6 +543,157 @@ func runC10(c *core.Ctx) core.Meta {
 		}
 	}
 
+	// ---------------- R10.13 Distribute re-homes exactly the pages of the buffer ----------------
+	st13 := c.Rule("R10.13", "Distribute remaps the buffer in pieces that tile it: the i-th chunk of the chunk loop starts at addr + i * (chunk size) with the chunk size it passes as length, and the i-th left-over page starts at addr + (pages per chunk * number of chunks + i) * pageSize with length pageSize (products compared as multisets of factors, so any association and order is accepted). A left-over page addressed with the chunk stride lies beyond the buffer: a page of a neighbouring buffer is re-homed, or the driver panics on an unmapped page", 2)
+	if fn := c.MustFunc("R10.13", driverPkg, "distributorImpl.Distribute"); fn != nil {
+		c.MarkAnalysed(fn)
+		var addrParam *ssa.Parameter
+		for _, prm := range fn.Params {
+			if core.PinnedName(fn, prm.Name()) == "addr" {
+				addrParam = prm
+			}
+		}
+		var factors func(v ssa.Value) []ssa.Value
+		factors = func(v ssa.Value) []ssa.Value {
+			v = core.StripConv(v)
+			if bo, ok := v.(*ssa.BinOp); ok && bo.Op == token.MUL {
+				return append(factors(bo.X), factors(bo.Y)...)
+			}
+			return []ssa.Value{v}
+		}
+		sameSet := func(a, b []ssa.Value) bool {
+			if len(a) != len(b) {
+				return false
+			}
+			used := make([]bool, len(b))
+			for _, x := range a {
+				found := false
+				for j, y := range b {
+					if !used[j] && x == y {
+						used[j], found = true, true
+						break
+					}
+				}
+				if !found {
+					return false
+				}
+			}
+			return true
+		}
+		loopBound := func(phi *ssa.Phi) ssa.Value {
+			for _, in := range phi.Block().Instrs {
+				if iff, ok := in.(*ssa.If); ok {
+					if bo, ok := iff.Cond.(*ssa.BinOp); ok && bo.Op == token.LSS && core.StripConv(bo.X) == ssa.Value(phi) {
+						return core.StripConv(bo.Y)
+					}
+				}
+			}
+			return nil
+		}
+		type remap struct {
+			in        ssa.Instruction
+			off, size ssa.Value
+		}
+		var calls []remap
+		for _, b := range fn.Blocks {
+			for _, in := range b.Instrs {
+				cc := core.CallOf(in)
+				if cc == nil || !cc.IsInvoke() || cc.Method.Name() != "Remap" || len(cc.Args) != 4 {
+					continue
+				}
+				a, ok := core.StripConv(cc.Args[1]).(*ssa.BinOp)
+				if !ok || a.Op != token.ADD || addrParam == nil {
+					calls = append(calls, remap{in: in})
+					continue
+				}
+				var off ssa.Value
+				if core.StripConv(a.X) == ssa.Value(addrParam) {
+					off = a.Y
+				} else if core.StripConv(a.Y) == ssa.Value(addrParam) {
+					off = a.X
+				}
+				calls = append(calls, remap{in: in, off: off, size: cc.Args[2]})
+			}
+		}
+		var chunkSize []ssa.Value
+		var chunkBound ssa.Value
+		// chunk calls first: the length is a product
+		for _, r := range calls {
+			if r.off == nil || len(factors(r.size)) < 2 {
+				continue
+			}
+			st13.Instances++
+			of := factors(r.off)
+			var iv *ssa.Phi
+			var rest []ssa.Value
+			for _, f := range of {
+				if ph, ok := f.(*ssa.Phi); ok && iv == nil && loopBound(ph) != nil {
+					iv = ph
+					continue
+				}
+				rest = append(rest, f)
+			}
+			ok := iv != nil && sameSet(rest, factors(r.size))
+			st13.Ob(ok)
+			st13.Sample("Distribute: chunk i at addr + i * chunk size: %v", ok)
+			if ok {
+				chunkSize, chunkBound = factors(r.size), loopBound(iv)
+			} else {
+				c.ReportAt("R10.13", fn, r.in.Pos(), "chunk:stride", "a chunk is remapped at an offset that is not (loop index) * (the length passed for the chunk): chunks overlap or leave gaps")
+			}
+		}
+		for _, r := range calls {
+			if r.off == nil {
+				st13.Instances++
+				st13.Ob(false)
+				c.Undecided("R10.13", fn, r.in.Pos(), "remap:address-shape", "a Remap of Distribute does not address addr + offset")
+				continue
+			}
+			if len(factors(r.size)) != 1 {
+				continue
+			}
+			st13.Instances++
+			page := factors(r.size)[0]
+			of := factors(r.off)
+			okT := false
+			if chunkSize != nil && len(of) == 2 {
+				var sum ssa.Value
+				if of[0] == page {
+					sum = of[1]
+				} else if of[1] == page {
+					sum = of[0]
+				}
+				if add, ok := core.StripConv(sum).(*ssa.BinOp); sum != nil && ok && add.Op == token.ADD {
+					for _, pair := range [][2]ssa.Value{{add.X, add.Y}, {add.Y, add.X}} {
+						ph, isPhi := core.StripConv(pair[1]).(*ssa.Phi)
+						if !isPhi || loopBound(ph) == nil {
+							continue
+						}
+						// K = (chunk size without the page size) * (number of chunks)
+						var want []ssa.Value
+						dropped := false
+						for _, f := range chunkSize {
+							if f == page && !dropped {
+								dropped = true
+								continue
+							}
+							want = append(want, f)
+						}
+						want = append(want, chunkBound)
+						if dropped && sameSet(factors(pair[0]), want) {
+							okT = true
+						}
+					}
+				}
+			}
+			st13.Ob(okT)
+			st13.Sample("Distribute: left-over page i at addr + (pages per chunk * chunks + i) * pageSize: %v", okT)
+			if !okT {
+				c.ReportAt("R10.13", fn, r.in.Pos(), "tail:stride", "a left-over page is remapped at an offset that is not (pages per chunk * number of chunks + i) * pageSize: with two or more left-over pages the second one lies a whole chunk further, beyond the buffer (a neighbour's page is re-homed or the page table panics)")
+			}
+		}
+	}
+
 	// ---------------- R10.4 no container mutated while ranged ----------------
 	st4 := c.Rule("R10.4", "a `for … range X` loop whose body reassigns X (remove-while-iterating) leaves the loop right after the assignment (return or break); otherwise elements are skipped or the stale length indexes past the end", 1)
 	for _, p := range []*PkgInfo{pd, pint} {
